@@ -30,6 +30,6 @@ NOT_APPLICABLE = {
     'C40': 'whole converter -> string -> parser pipeline',
     'C41': 'oracle is execution in a Lua VM; loop narrowing is whole-analysis',
     # planned, not yet built:
-    'C21': PENDING, 
-    'C23': PENDING, 'C25': PENDING, 'C26': PENDING, 
+    
+    'C26': PENDING, 
 }
